@@ -476,3 +476,147 @@ def value_keyed_cache(check: Check, repo: Repo, mods: Iterable[Module], rule: st
     check.control(f"{rule}:decorated", _cache_decorated(fx.get("cached_bad")), True)
     check.control(f"{rule}:plain", _cache_decorated(fx.get("zip_ok")), False)
     return n
+
+
+# --------------------------------------------------------------------------- #
+# WORKLIST-RETURN, LOOP-INVARIANT-CALL, MUTABLE-CLASS-ATTR
+
+
+def _worklists(fn: ast.AST) -> list[tuple[ast.While, str]]:
+    out = []
+    for w in walk_body(fn):
+        if not isinstance(w, ast.While):
+            continue
+        t = w.test
+        name = t.id if isinstance(t, ast.Name) else None
+        if name is None:
+            continue
+        pops = any(isinstance(c, ast.Call) and isinstance(c.func, ast.Attribute) and c.func.attr in ("pop", "popleft")
+                   and isinstance(c.func.value, ast.Name) and c.func.value.id == name for c in ast.walk(w))
+        pushes = any(isinstance(c, ast.Call) and isinstance(c.func, ast.Attribute) and c.func.attr in ("append", "extend", "appendleft")
+                     and isinstance(c.func.value, ast.Name) and c.func.value.id == name for c in ast.walk(w))
+        if pops and pushes:
+            out.append((w, name))
+    return out
+
+
+def worklist_return(check: Check, funcs: Iterable[ast.AST], rule: str = "WORKLIST-RETURN") -> int:
+    check.rule(
+        rule,
+        "a loop `while work:` that pops items from `work` and pushes further items onto it finishes one item "
+        "with `continue`; a bare `return` inside such a loop (typically left over from the recursive version, "
+        "where it ended one call) abandons every item still queued",
+    )
+    n = 0
+    for fn in funcs:
+        for w, name in _worklists(fn):
+            rets = [r for r in ast.walk(w) if isinstance(r, ast.Return) and r.value is None and enclosing_function(r) is fn]
+            n += 1
+            check.ob(rule, w, f"{getattr(fn, 'name', '?')}: worklist `{name}`", not rets,
+                     "no bare return inside the worklist loop" if not rets else
+                     f"`return` at line {rets[0].lineno} drops the {name} items that are still queued")
+    fx = fixture("generic_controls")
+    check.control(f"{rule}:bad", any(any(isinstance(r, ast.Return) and r.value is None for r in ast.walk(w)) for w, _ in _worklists(fx.get("worklist_bad"))), True)
+    check.control(f"{rule}:ok", any(any(isinstance(r, ast.Return) and r.value is None for r in ast.walk(w)) for w, _ in _worklists(fx.get("worklist_ok"))), False)
+    return n
+
+
+def _loop_vars(loop: ast.AST) -> set[str]:
+    return {x.id for x in ast.walk(loop.target) if isinstance(x, ast.Name)}  # type: ignore[attr-defined]
+
+
+def loop_invariant_calls(fn: ast.AST) -> list[tuple[ast.Call, ast.For]]:
+    """Call statements nested in a for loop that depend on none of that loop's variables although they
+    depend on the variables of an inner or sibling loop (so they were put there, not hoisted by mistake)."""
+    out = []
+    for loop in walk_body(fn):
+        if not isinstance(loop, ast.For):
+            continue
+        lv = _loop_vars(loop)
+        # names derived from the loop variables inside the loop
+        derived = set(lv)
+        grew = True
+        while grew:
+            grew = False
+            for s in ast.walk(loop):
+                if isinstance(s, ast.Assign):
+                    names = {x.id for x in ast.walk(s.value) if isinstance(x, ast.Name)}
+                    for t in s.targets:
+                        for x in ast.walk(t):
+                            if isinstance(x, ast.Name) and x.id not in derived and names & derived:
+                                derived.add(x.id)
+                                grew = True
+                elif isinstance(s, ast.For) and s is not loop:
+                    names = {x.id for x in ast.walk(s.iter) if isinstance(x, ast.Name)}
+                    if names & derived:
+                        for x in ast.walk(s.target):
+                            if isinstance(x, ast.Name) and x.id not in derived:
+                                derived.add(x.id)
+                                grew = True
+        for st in loop.body:
+            for sub in ast.walk(st):
+                if isinstance(sub, ast.Expr) and isinstance(sub.value, ast.Call):
+                    names = {x.id for x in ast.walk(sub.value) if isinstance(x, ast.Name)}
+                    inner = [a for a in _anc_until(sub, loop) if isinstance(a, ast.For)]
+                    if inner and not (names & derived) and any(names & _loop_vars(i) for i in inner):
+                        out.append((sub.value, loop))
+    return out
+
+
+def _anc_until(n: ast.AST, stop: ast.AST):
+    p = parent(n)
+    while p is not None and p is not stop:
+        yield p
+        p = parent(p)
+
+
+def loop_invariant_call(check: Check, funcs: Iterable[ast.AST], rule: str = "LOOP-NEST") -> int:
+    check.rule(
+        rule,
+        "a call statement inside nested for-loops depends on the variable of every loop it is nested in: "
+        "a comparison of A with each element of Y that sits inside `for x in X:` without using x runs zero "
+        "times when X is empty (and |X| times otherwise) - fusing two independent loops loses the "
+        "comparisons of one side whenever the other side is empty",
+    )
+    n = 0
+    for fn in funcs:
+        loops = [l for l in walk_body(fn) if isinstance(l, ast.For)]
+        if not loops:
+            continue
+        bad = loop_invariant_calls(fn)
+        nested = [l for l in loops if any(isinstance(x, ast.For) and x is not l for x in ast.walk(l))]
+        if not nested:
+            continue
+        n += 1
+        check.ob(rule, fn, f"{getattr(fn, 'name', '?')}: calls in nested loops use every enclosing loop variable", not bad,
+                 f"{len(nested)} nested loop(s) checked" if not bad else
+                 "; ".join(f"`{node_text(c, 50)}` does not depend on `for {unparse(l.target)} in {unparse(l.iter)}` (line {l.lineno}) it is nested in" for c, l in bad[:2]))
+    return n
+
+
+def mutable_class_attr(check: Check, mods: Iterable[Module], rule: str = "MUTABLE-CLASS-ATTR") -> int:
+    check.rule(
+        rule,
+        "no class body binds a mutable container (`cache: dict = {}`): the one object is shared by every "
+        "instance, so what one validation run caches is read by the next run (the verdict depends on what "
+        "was validated before)",
+    )
+    n = 0
+    for mod in mods:
+        for cls in mod.classes():
+            bad = []
+            for s in cls.body:
+                v = s.value if isinstance(s, (ast.Assign, ast.AnnAssign)) else None
+                if v is None:
+                    continue
+                if isinstance(v, (ast.Dict, ast.List, ast.Set)) or (
+                        isinstance(v, ast.Call) and isinstance(v.func, ast.Name) and v.func.id in _MUTABLE_CALLS):
+                    name = unparse(s.targets[0] if isinstance(s, ast.Assign) else s.target)
+                    if name.startswith("__") and name.endswith("__"):
+                        continue  # __slots__, __all__ ...
+                    bad.append((name, v))
+            n += 1
+            check.ob(rule, cls, f"class {cls.name}: class-level bindings", not bad,
+                     "no shared mutable container" if not bad else "; ".join(f"`{nm} = {unparse(v)}` is one object for all instances" for nm, v in bad),
+                     nontrivial=bool(bad))
+    return n
